@@ -529,6 +529,9 @@ class AlignmentRotation(HomogFamilyAlignment, Rotation):
         Rotation.__init__(
             self, optimal_rotation_matrix(source, target, allow_mirror=allow_mirror)
         )
+        # setting the matrix re-derives the target from the state; at
+        # construction the target is the one we were given
+        self._target = target
         self.allow_mirror = allow_mirror
 
     def set_rotation_matrix(self, value, skip_checks=False):
